@@ -53,7 +53,7 @@ def seq_slice(s, lo, hi, ctx):
     """s[lo:hi] with Python clamping; lo/hi: None, int or Int term"""
     s = concretize(s, ctx)
     total = s.length()
-    if not isz(total) and not isz(lo) and not isz(hi):
+    if not isz(total) and not isz(lo) and not isz(hi) and all(isinstance(g, Elems) or g.origin is None for g in s.segs):
         # fully concrete geometry
         terms = s.terms()
         return Seq(s.kind, [Elems(terms[lo:hi])])
@@ -118,7 +118,7 @@ def seq_slice(s, lo, hi, ctx):
             a0 = max(ca - stc, 0)
             b0 = min(cb - stc, Lc)
             if a0 < b0:
-                out.append(g.sub(a0, b0 - a0) if not isinstance(g, Elems) else g.sub(a0, b0 - a0))
+                out.append(g if (a0 == 0 and b0 == Lc) else g.sub(a0, b0 - a0))
         if ok:
             return Seq(s.kind, out)
     # suffix cut s[a:] with concrete a inside a concrete prefix
@@ -543,6 +543,17 @@ def seq_int(s, base, ctx):
                     ctx.notes.append("int(x,16): lenient-literal forms not excluded; treated as ValueError")
                     ctx.inexact = True
                 _raise("ValueError", "invalid literal for int()")
+        # accumulate pairwise so that two digits of the same byte give that byte back (keeps terms linear in the bytes)
+        from .sym import register_besum
+        if len(vals) % 2 == 0 and len(vals) >= 2:
+            bs = [byte_of_nibs(vals[i], vals[i + 1]) for i in range(0, len(vals), 2)]
+            v = 0
+            for b in bs:
+                v = v * 256 + b if not (isz(v) or isz(b)) else zi(v) * 256 + zi(b)
+            if isz(v):
+                v = simp(v)
+                register_besum(v, bs)
+            return v
         v = 0
         for d in vals:
             v = v * 16 + d if not (isz(v) or isz(d)) else zi(v) * 16 + zi(d)
@@ -738,7 +749,22 @@ def seq_contains(hay, needle, ctx):
     return simp(z3.Or(alts))
 
 
+def dec_gen(n):
+    """decimal text of 0 <= n <= 999 as ONE segment of symbolic length 1..3 (no path fork)"""
+    L = z3.If(n < 10, 1, z3.If(n < 100, 2, 3))
+
+    def fn(i, n=n, L=L):
+        return z3.If(L == 1, n + 48,
+                     z3.If(L == 2, z3.If(i == 0, n / 10 + 48, n % 10 + 48),
+                           z3.If(i == 0, n / 100 + 48, z3.If(i == 1, (n / 10) % 10 + 48, n % 10 + 48))))
+    g = Gen(simp(L), fn, ("dec", n.get_id()), 0, {"ascii"})
+    g.origin = ("dec", n)
+    return g
+
+
 def str_of_int(n, ctx):
     if not isz(n):
         return str(n)
+    if ctx.entails(z3.And(n >= 0, n <= 999)):
+        return Seq('str', [dec_gen(n)])
     return format_int(n, "", ctx)
